@@ -12,6 +12,10 @@ CHECK = {
              "^TestVerif_C03_(ACL|SmallScope|Root)$",
              quick={"checks": 20000, "shards": 1, "cap": 600},
              thorough={"checks": 200000, "shards": 16, "cap": 2400},
+             # the reference decision is a pure function of the recorded policies and request; a recorded disagreement
+             # that rapid cannot re-trigger means the implementation's decision is not a function of its inputs (e.g.
+             # it follows map iteration order), which is a violation in itself
+             flaky_is_violation=True,
              fuzz=[dict(name="FuzzVerif_C03_ACL", seconds=240)]),
         # ACLs built from the same cached *Policy objects must not influence each other
         unit("isolation", "policy", ["policy/c03_ref_test.go", "policy/c03_prop_test.go", "policy/c03_isolation_test.go"],
